@@ -296,7 +296,7 @@ Lemma generate_Lam_F : forall tl svs cur id ps r fv b,
   | _ :: _ => [IPush LVoid; IPush (LInt (Z.of_nat (length fv))); IMakeVector]
               ++ closure_fill svs cur 0 fv ++ [IMakeProc (lam_flags id r b) (length ps) body]
   end.
-Proof. intros. destruct fv; reflexivity. Qed.
+Proof. intros. rewrite <- (Proofs.lam_flags_sv_nil id r b). destruct fv; reflexivity. Qed.
 
 Lemma gen_fetch : forall svs id ps r dead cfv x m, unboxed svs ->
   gen_non_global_ref svs (lctxF (Some (id, ps, r, dead, cfv))) x (Local m) false =
